@@ -44,6 +44,19 @@ Theorem C20_parser_events_are_well_nested :
   ok_events (xc_events c') = true /\ in_input eoi_off (xc_events c') = true.
 Proof. exact xrun_events_nested. Qed.
 
+(* the same with a condition on the machine instead of the final stack: end-of-input is only shifted into the end
+   state (then the loop stops, so an end-of-input leaf is never reduced into a tree) *)
+Theorem C20_parser_events_are_well_nested_eoi :
+  forall m evt rl eoi_off fuel start end_state input o c',
+  nested_table evt -> eoi_stops m end_state ->
+  Forall (fun t => t_sym t <> 0) input ->
+  ordered (map tok_range input) eoi_off ->
+  Forall (fun t => 0 <= t_off t) input -> 0 <= eoi_off ->
+  xrun fuel m evt true start end_state eoi_off input = (o, c') ->
+  Forall (fun e => wf_tree evt rl (x_tree e)) (xc_stack c') ->
+  ok_events (xc_events c') = true /\ in_input eoi_off (xc_events c') = true.
+Proof. exact xrun_events_nested_eoi. Qed.
+
 (* Consequently the AST builder fed by such a parser builds a well-formed forest with exactly the reported nodes *)
 Theorem C20_parser_and_builder :
   forall m evt rl eoi_off fuel start end_state input o c',
@@ -103,6 +116,7 @@ Proof. vm_compute. repeat split; reflexivity. Qed.
 
 Print Assumptions C20_builder_correct.
 Print Assumptions C20_parser_events_are_well_nested.
+Print Assumptions C20_parser_events_are_well_nested_eoi.
 Print Assumptions C20_parser_and_builder.
 Print Assumptions C20_events_of_a_tree_are_nested.
 Print Assumptions C20_nested_table_is_checkable.
